@@ -1,4 +1,4 @@
-(* Oracle of the C15 lin correspondence: runs the extracted model base/Lin.v (lop_step and the three constructors)
+(* Oracle of the C15 lin correspondence: runs the extracted model base/Lin.v (lop_step and the three constructors) and the printers of base/ArithStr.v
    on the line protocol described in harness/h_lin.cpp. Numbers go through OCaml's 63-bit int; the generators keep
    every intermediate far below 2^62 and an overflow is reported as "?failure overflow". *)
 type ostring = string
@@ -70,6 +70,12 @@ let op_of (tk : ostring list) : lop =
   | _ -> failwith "bad op"
 
 let run_line (line : ostring) : ostring =
+  if starts_with "str_rat " line then ocaml_string (rat_to_string (in_rat (String.sub line 8 (String.length line - 8))))
+  else if starts_with "str_irat " line then
+    (match String.split_on_char ',' (String.sub line 9 (String.length line - 9)) with
+     | [a; b] -> ocaml_string (irat_to_string { irat_rat = in_rat a; irat_inf = in_rat b })
+     | _ -> "?bad")
+  else
   match String.split_on_char '|' line with
   | [] -> "?bad"
   | i :: ops ->
